@@ -260,16 +260,33 @@ def v_records(tier: str, rng: random.Random):
         """(start, line, column) of the tokens the real lexer produces - the lexer's incremental line / line_start
         bookkeeping (also inside block strings and after comments) against Loc"""
         from graphql.language import Lexer, TokenKind
-        lx = Lexer(Source(text))
         toks = []
+        # three ways of walking the tokens: advance() only; a lookahead() before every advance (the parser looks ahead after
+        # descriptions and `extend`); the token chain the parser leaves behind (start_token ... next)
+        for mode in ("advance", "lookahead"):
+            lx = Lexer(Source(text))
+            try:
+                while True:
+                    if mode == "lookahead":
+                        la = lx.lookahead()
+                        toks.append([la.start, la.line, la.column, la.kind.name])
+                    t = lx.advance()
+                    toks.append([t.start, t.line, t.column, t.kind.name])
+                    if t.kind == TokenKind.EOF:
+                        break
+            except GraphQLError:
+                pass
         try:
-            while True:
-                t = lx.advance()
-                toks.append([t.start, t.line, t.column, t.kind.name])
-                if t.kind == TokenKind.EOF:
-                    break
+            t = parse(Source(text)).loc.start_token
+            while t is not None:
+                if t.kind != TokenKind.SOF:
+                    toks.append([t.start, t.line, t.column, t.kind.name])
+                t = t.next
         except GraphQLError:
             pass
+        seen_t = set()
+        toks = [x for x in toks if not (tuple(x) in seen_t or seen_t.add(tuple(x)))]
+        toks.sort(key=lambda x: x[0])
         if len(toks) > cap:
             # keep the tokens that follow a block string, plus a seeded sample of the others
             keep = [k for k in range(1, len(toks)) if toks[k - 1][3] == "BLOCK_STRING"]
@@ -313,6 +330,11 @@ def v_records(tier: str, rng: random.Random):
             recs += rs; all_fmt += pr
         except GraphQLError:
             pass
+    for _ in range(60 if tier == "quick" else 600):
+        nl = lambda: rng.choice(terms + [" ", ""])      # noqa: E731
+        text = rng.choice(['"d"', '"""d' + rng.choice(terms) + 'e"""', ""]) + nl() + "type T {" + nl() + rng.choice(['"fd"' + nl(), ""]) + "f: Int" + nl() + "}" + nl() \
+            + "extend" + nl() + rng.choice(["#c" + rng.choice(terms), ""]) + "type T {" + nl() + "g: Int }" + nl() + rng.choice(['"q"' + nl() + "query Q { f }", "{ f }"])
+        recs.append({"src": abstract_text(text), "checks": token_checks(text, 80), "what": "tokens"})
     for base in corpus + V_DOCS:
         for k in range(n_var):
             texts.append(base if k == 0 else rewrite_terminators(base, rng))
